@@ -598,7 +598,8 @@ def run_check(modname, tier, seed, replay=None, jobs=None):
     for k, sigs in seen_known.values():
         label = sigs[0] if len(sigs) == 1 else "%s (+%d more signatures of this family)" % (sigs[0], len(sigs) - 1)
         print("KNOWN-FINDING: property=%s %s [%s]" % (prop, k.get("what", ""), label))
-    rdir = os.path.join(VERIF, "replays", prop)
+    OUT = os.environ.get("VERIF_OUT") or VERIF   # experiments against seeded changes write their evidence/replays elsewhere
+    rdir = os.path.join(OUT, "replays", prop)
     for sig, vs in new:
         os.makedirs(rdir, exist_ok=True)
         h = hashlib.sha1(sig.encode()).hexdigest()[:12]
@@ -633,8 +634,8 @@ def run_check(modname, tier, seed, replay=None, jobs=None):
     extra = getattr(mod, "evidence_extra", None)
     if extra:
         ev["coverage"].update(extra(agg, tier))
-    os.makedirs(os.path.join(VERIF, "evidence"), exist_ok=True)
-    with open(os.path.join(VERIF, "evidence", prop + ".json"), "w") as f:
+    os.makedirs(os.path.join(OUT, "evidence"), exist_ok=True)
+    with open(os.path.join(OUT, "evidence", prop + ".json"), "w") as f:
         json.dump(ev, f, indent=1, default=str)
     print("%s tier=%s seed=%d: %d evaluations, %d distinct non-trivial, %d inconclusive, %d out-of-domain, %d known, %d NEW violations, %.1fs"
           % (prop, tier, seed, agg["evaluations"], len(agg["nontrivial"]) + agg.get("nontrivial_count", 0), agg["inconclusive"], agg["out_of_domain"], len(hit), len(new), wall))
